@@ -706,10 +706,22 @@ def gen_scaling(rng, tier):
     def tangent(x0_, y0, v):
         # the factor is frozen at the first response (documented memory): objective sf = scaling/|x0|
         if mode == "objective":
-            return [sc / float(np.linalg.norm(x0_[0])) * v[0]]
-        if mode == "min":
-            return [-sc * v[0] / kw["minval"]]
-        return [sc * v[0] / kw["maxval"]]
+            t = sc / float(np.linalg.norm(x0_[0])) * v[0]
+        elif mode == "min":
+            t = -sc * v[0] / kw["minval"]
+        else:
+            t = sc * v[0] / kw["maxval"]
+        # the closed form describes the documented response; the property is about the response the module really computes, which is
+        # affine in x once the factor is fixed: difference of two responses of one instance (first response at x0)
+        m2 = pym.Scaling(_S("x", x0_[0]), pym.Signal("y"), scaling=sc, **kw)
+        m2.response()
+        ya = np.array(m2.sig_out[0].state, dtype=float)
+        m2.sig_in[0].state = x0_[0] + v[0]
+        m2.response()
+        d = np.array(m2.sig_out[0].state, dtype=float) - ya
+        if not np.allclose(d, t, rtol=1e-9, atol=1e-12 * (1 + float(np.max(np.abs(t))))):
+            return [d]          # the module's own response decides (the probe then compares the sensitivity with it)
+        return [t]
     return Cfg("Scaling", f"Scaling/{mode}/{type(x0[0]).__name__}{np.shape(x0[0])}", lambda: pym.Scaling(_S("x", x0[0]), pym.Signal("y"), scaling=sc, **kw), x0,
                tangent=tangent)
 
